@@ -23,6 +23,11 @@ def build(case):
         for s in ph["stmts"]:
             if s.get("sw") is not None:
                 st = SwitchPhase(next_phase=s["sw"], id=s["id"], depends_on=s["deps"])
+            elif s.get("cw") and s.get("cwk") == "call":
+                # the flag is written by a CALL statement (assignees, not assignee), together with a plain variable
+                from dagrt.language import AssignFunctionCall
+                st = AssignFunctionCall(assignees=(s["cw"], "other_" + s["id"]), function_id="<func>two", parameters=(1,),
+                                        id=s["id"], depends_on=s["deps"])
             elif s.get("cw"):
                 st = Assign(id=s["id"], assignee=s["cw"], assignee_subscript=(), expression=1, depends_on=s["deps"])
             else:
@@ -249,7 +254,8 @@ def decorate(rng, case):
         if r < 0.4:
             stmts.append({"id": f"x{k}", "deps": deps, "sw": rng.choice(["A", "B", "nowhere"])})
         else:
-            stmts.append({"id": f"x{k}", "deps": deps, "cw": rng.choice(["<cond>c", "<cond>c", "<cond>d", "plain"])})
+            stmts.append({"id": f"x{k}", "deps": deps, "cw": rng.choice(["<cond>c", "<cond>c", "<cond>d", "plain"]),
+                          "cwk": rng.choice(["assign", "assign", "call"])})
         k += 1
     return c
 
@@ -277,6 +283,7 @@ def rand_case(rng):
                 s["sw"] = rng.choice(names + ["nowhere"] * (1 if rng.random() < 0.3 else 0) or names)
             elif r < 0.25:
                 s["cw"] = rng.choice(["<cond>c", "<cond>d", "<cond>e", "<cond>f", "v"])
+                s["cwk"] = rng.choice(["assign", "assign", "call"])
             stmts.append(s)
         rng.shuffle(stmts)
         phases.append({"name": name, "stmts": stmts})
@@ -289,8 +296,15 @@ def flag_cases():
     for writers in (["<cond>c", "<cond>c", "<cond>d"], ["<cond>c", "<cond>d", "<cond>c", "<cond>d"],
                     ["<cond>c", "<cond>d", "<cond>e"], ["<cond>c", "<cond>d", "v", "<cond>c"]):
         for perm in sorted(set(itertools.permutations(writers))):
-            stmts = [{"id": f"w{i}", "deps": [f"w{i - 1}"] if i else [], "cw": w} for i, w in enumerate(perm)]
-            yield {"op": "C10.verify", "tag": "flags", "phases": [{"name": "A", "stmts": stmts}]}
+            # the writers as assignments, as call statements, and mixed (first writer of each flag an assignment)
+            for how in ("assign", "call", "mixed"):
+                seen = set()
+                stmts = []
+                for i, w in enumerate(perm):
+                    kind = how if how != "mixed" else ("call" if w in seen else "assign")
+                    seen.add(w)
+                    stmts.append({"id": f"w{i}", "deps": [f"w{i - 1}"] if i else [], "cw": w, "cwk": kind})
+                yield {"op": "C10.verify", "tag": "flags-" + how, "phases": [{"name": "A", "stmts": stmts}]}
 
 
 def ladder(layers, back_edge):
